@@ -23,7 +23,7 @@ from ..terms import fp
 
 DEPTH = {"quick": (2, 3), "thorough": (2, 3)}   # (all sequences, deepest level; see sequences())
 PROBES = [None, 0, 7, "a", "ab", [0], [0, "a"], {"a": 0}, {"a": 0, "b": "a"}, [], {}, 1.5]
-VALS = {"v_int": 0, "v_list": [0, "a"], "v_dict": {"a": 0}, "v_bad": [None],
+VALS = {"v_int": 0, "v_list": [0, "a"], "v_dict": {"a": 0}, "v_bad": [None], "v_short": [0],
         # values that are == (and hash alike) but of different kinds: forced collisions for any
         # cache or table keyed by value
         "v_zero": 0, "v_fzero": 0.0, "v_false": False, "v_one_list": [1], "v_fone_list": [1.0],
@@ -105,7 +105,11 @@ def events():
     for vn in MISSING:
         ev += [("validate", 3, vn), ("subst", 3, vn), ("eq_value", 3, vn)]
     ev += [("repr", 6), ("gen", 6), ("validate", 6, "v_str"), ("second_instances",),
-           ("subst", 5, "E0"), ("subst_untyped_E0",), ("from_native_E0",)]
+           ("subst", 5, "E0"), ("subst_untyped_E0",), ("from_native_E0",),
+           # rarely used parameters and accessors: represent(..., indent=n), a list declared from
+           # the caller's EMPTY list, rendering a held validation result
+           ("repr_indent", 2), ("repr_indent", 3), ("repr_indent", "last"), ("declare_list_E0",),
+           ("validate", 2, "v_short"), ("format_R",)]
     ev += [("subst_untyped", vn) for vn in COLLIDING_LISTS]
     ev += [("subst_untyped_dict", vn) for vn in COLLIDING[:3]]
     muts = [("mut", "E0.append"), ("mut", "L0.append"), ("mut", "L0.clear"), ("mut", "L0.setitem"), ("mut", "D0.set"),
@@ -216,6 +220,19 @@ def step(st, e, rng):
             return substitute(schema.list, arg(e[1], VALS[e[1]])), args
         if k == "subst_untyped_dict":
             return substitute(schema.dict, arg(e[1], {"n": VALS[e[1]]})), args
+        if k == "repr_indent":
+            s = operand(st, e[1])
+            return ("repr_indent", represent(s, indent=2)), args
+        if k == "declare_list_E0":
+            return schema.list(arg("E0", st.E0)), args
+        if k == "format_R":
+            if st.R is None:
+                return ("format_R", None), args
+            errs = arg("R.errors", st.R.get_errors())
+            from d42.validation import format_result
+            first = format_result(st.R)
+            again = format_result(st.R)
+            return ("format_R", "stable" if first == again else ("unstable", first, again), len(errs)), args
         if k == "second_instances":
             second_instances()
             return None, args
@@ -346,7 +363,12 @@ def core_events():
     """Reduced alphabet for the deepest level: one event per operation kind and operand shape."""
     keep = []
     for e in events():
-        if e[0] in ("from_native_v", "subst_untyped", "subst_untyped_dict"):
+        if e[0] in ("from_native_v", "subst_untyped", "subst_untyped_dict", "repr_indent", "format_R",
+                    "second_instances", "eq_value"):
+            continue
+        if len(e) > 2 and e[2] in MISSING:
+            continue
+        if len(e) > 1 and e[1] == 6:
             continue
         if e[0] in ("validate", "subst") and isinstance(e[1], int) and e[1] in (0, 1, 4) \
                 and e[2] != "v_list":
